@@ -2,37 +2,32 @@ import OmplModel.Proofs.NNLinear
 import OmplModel.Proofs.NNGnat
 import OmplModel.Proofs.NNGnatExact
 import OmplModel.Proofs.NNGnatOps
+import OmplModel.Proofs.NNGnatRefine
 import Mathlib.Algebra.Order.Ring.Int
 /-!
 C10 — nearest-neighbour structures answer exactly like exhaustive search.
 
-Property theorems only (helpers: `Proofs/NNLinear.lean`, `Proofs/NNGnat.lean`, `Proofs/NNGnatQuery.lean`,
-`Proofs/NNGnatExact.lean`, `Proofs/NNGnatOps.lean`).
+Property theorems only (helpers: `Proofs/NNLinear.lean`, `NNGnat.lean`, `NNGnatQuery.lean`, `NNGnatExact.lean`,
+`NNGnatOps.lean`, `NNGnatSplit.lean`, `NNGnatRefine.lean`).  Everything is proved; nothing is `_partial`.
 
-Proved in full:
 * Linear (`linear_exact`, `linear_nearestK_dists`, `linear_size_list_abs`, `linear_remove_result`),
   SqrtApprox (`sqrt_member`, `sqrt_size_list_abs`);
-* GNAT queries: `nearestK_exact`, `nearestR_exact`, `nearest_exact` — `GnatInv` (the executable
-  `Node.inv` evaluated on every dump of the real tree) implies that the model's query code returns
-  exactly the brute-force answer, for every metric on a linearly ordered commutative ring and for
-  **every** child visiting order; the fuel of the model's loops always suffices
-  (`gnat_child_orders_are_permutations` shows the two variants' orders are admitted).
+* GNAT queries: `nearestK_exact`, `nearestR_exact`, `nearest_exact` — `GnatInv` (the executable `Node.inv`
+  evaluated on every dump of the real tree) implies that the model's query code returns exactly the
+  brute-force answer, for every metric on a linearly ordered commutative ring and **every** child
+  visiting order; the fuel of the model's loops always suffices (`gnat_child_orders_are_permutations`:
+  the two variants' orders are admitted);
+* GNAT operations (`Model/NNGnatOps.lean`, compared in lock-step with the real code on every run):
+  `kcenters_relation` (greedy k-centers, every first centre), `split_establishes_inv`, `add_preserves_inv`,
+  `remove_preserves_inv` (pivot test and rebuild included), `rebuild_abs`, the refinement
+  `gnat_size_list_abs` (every operation history, every draw sequence) and its corollary
+  `gnat_history_queries_exact` (after any history every query equals brute force over the abstract
+  multiset).
 
-GNAT operations (`Model/NNGnatOps.lean`, compared in lock-step with the real code on every run) —
-`_partial`:
-* `add_preserves_inv_partial`: `Node::add` (descent, `updateRange`/`updateRadius`, leaf push) preserves
-  `GnatInv`, keeps every pivot and stores only the old copies plus the new one — unconditionally when
-  the leaf is not split in place, and given `SplitSpec` (= the statement of `split_establishes_inv`
-  below) when it is;
-* `remove_preserves_inv_partial`: marking a copy that is not a pivot preserves `GnatInv`.
-Not proved (checked on every dump of the real tree by checks/c10.py instead, and said so there):
-
-  theorem split_establishes_inv : KCentersRel ctx → SplitSpec ctx []
-      -- i.e. for a leaf n with un-removed pivot: (splitNode ctx fuel n us).1.inv ∧ same pivot ∧ same copies
-  theorem remove_preserves_inv : g.WF dist → ids distinct → ((g.remove ctx ord x us).1.1).WF dist
-      -- missing: `isPivot = false` ⟹ the copy found is not a pivot; rebuild = build (needs split)
-  theorem rebuild_abs : (g.rebuild ctx us).1.list ~ g.list ∧ WF
-  theorem gnat_size_list_abs : ∀ ops, (run ops).list ~ specRun ops ∧ (run ops).WF dist
+Hypotheses of the operation theorems, all satisfied by the driver's instances (`sampleCtx_ok`):
+`CtxOK` (`minDegree_, maxDegree_, degree_ >= 1` — with `minDegree_ = 0` the real `split` calls `kcenters`
+with `k = 0`, see notes/C10.md —, the first centre is a valid index, `dist x x = 0 <= dist x y`, `0 < eps`),
+and for `remove` a genuine metric (`MetricOK`: symmetry, triangle inequality, `dist a b = 0 ↔ a = b`).
 -/
 namespace OmplModel.NN
 
@@ -264,54 +259,147 @@ example : IsMetric (fun (a b : Int) => |a - b|) :=
 end Gnat
 
 
-/-! ## GNAT operations (model of `Node::add` / `remove`; lock-step compared with the real code) -/
+/-! ## GNAT operations (`Model/NNGnatOps.lean`; compared in lock-step with the real code on every run) -/
 
 section GnatOps
 
-/-- **`Node::add` preserves `GnatInv`.**  For every distance function (no metric law is needed: ranges
-and radii record distances that were actually computed), every tree satisfying the invariant and every
-new copy `x`: after the model's `Node::add` — descend to the first closest pivot, `updateRange` of every
-sibling, `updateRadius` of the chosen child, push into the leaf — the invariant holds again, the
-root pivot is unchanged, and the tree stores nothing but the old copies and `x`.
-Unconditional when the leaf is not split in place (`doSplit = false`: the two `rebuildDataStructure`
-branches, and every add that does not overflow a leaf — for those `insert … true = insert … false`);
-when the leaf is split it assumes `SplitSpec` (what `split_establishes_inv` would provide). -/
-theorem add_preserves_inv_partial {U : Type} [LinearOrder D] [OfNat D 0] (ctx : Ctx α D U) (removed : List Nat)
-    (doSplit : Bool) (hS : doSplit = true → SplitSpec ctx removed) (x : Elem α) (t : Node α D)
-    (ht : t.inv ctx.dist removed = true) (us : List U) :
-    (t.insert ctx doSplit x us).1.inv ctx.dist removed = true ∧
-    (t.insert ctx doSplit x us).1.pivot = t.pivot ∧
-    ∀ y ∈ (t.insert ctx doSplit x us).1.elems, y = x ∨ y ∈ t.elems := by
-  obtain ⟨h1, h2, h3⟩ := Node.insert_spec ctx removed doSplit hS x t.count t (Nat.le_refl _) ht us
-  refine ⟨h1, h2, ?_⟩
-  intro y hy
-  rw [Node.elems_eq, h2] at hy
-  rw [Node.elems_eq]
-  rcases List.mem_cons.mp hy with h | h
-  · exact Or.inr (by rw [h]; simp)
-  · rcases h3 y h with h | h
-    · exact Or.inl h
-    · exact Or.inr (List.mem_cons_of_mem _ h)
+/-- **k-centers relation.**  For EVERY first centre (`first < data.size()`), the model's
+`GreedyKCenters::kcenters` returns between 1 and `max k 1` valid indices, each centre at distance
+`>= eps` from every centre chosen before it — duplicates / fewer distinct points than `k` are exactly
+the `maxDist < eps` cut-off — and therefore (`dist x x = 0 <= dist x y`, `0 < eps`) the first-closest
+centre of centre `i`, in the index order in which `split`'s assignment loop breaks ties, is `i` itself. -/
+theorem kcenters_relation [LinearOrder D] [OfNat D 0] {dist : α → α → D} {eps : D} (hd : DistOK dist eps)
+    (data : List (Elem α)) (k first : Nat) (hf : first < data.length) :
+    let pivots := kcenters dist eps data k first
+    (∀ c ∈ pivots, c < data.length) ∧ 1 ≤ pivots.length ∧ pivots.length ≤ 1 + (k - 1) ∧ pivots.Nodup ∧
+    pivots.Pairwise (FarApart dist eps data) ∧
+    ∀ (i pi : Nat) (x : Elem α), pivots[i]? = some pi → data[pi]? = some x →
+      Asg dist (pivElems data pivots) x = i := by
+  intro pivots
+  obtain ⟨k1, k2, k3, k4⟩ := kcenters_spec dist eps data k first hf
+  exact ⟨k1, k4, k3, pivots_nodup hd data pivots k1 k2, k2,
+    fun i pi x hi hx => asg_pivot hd data pivots k1 k2 i pi x hi hx⟩
 
-/-- **`remove` of a non-pivot preserves `GnatInv`**: marking a stored copy whose id is not the id of
-a pivot keeps the invariant (it bounds the distances to *all* stored copies, removed ones included). -/
-theorem remove_preserves_inv_partial [LE D] [DecidableLE D] (dist : α → α → D) (removed : List Nat) (i : Nat)
-    (t : Node α D) (ht : t.inv dist removed = true) (hp : ∀ p ∈ t.pivots, p.id ≠ i) :
-    t.inv dist (i :: removed) = true :=
-  Node.inv_mark dist removed i t ht hp
+/-- **`split` establishes `GnatInv`**, for every draw sequence: a leaf with at least one element and
+`degree_ >= 1` (parameters with `minDegree_, maxDegree_ >= 1`) becomes a subtree that satisfies the
+invariant (with nothing marked removed — the only situation in which `split` runs), keeps pivot, radii
+and ranges of the split node, stores exactly the same copies (a permutation), and has positive degrees
+everywhere.  Running out of fuel or draws leaves the leaf unsplit, which satisfies all of this too. -/
+theorem split_establishes_inv [LinearOrder D] [OfNat D 0] {U : Type} (ctx : Ctx α D U) (hctx : CtxOK ctx)
+    (fuel : Nat) (n : Node α D) (us : List U) (hleaf : n.children = []) (hdata : n.data ≠ []) (hdeg : 0 < n.degree) :
+    (splitNode ctx fuel n us).1.inv ctx.dist [] = true ∧ (splitNode ctx fuel n us).1.pivot = n.pivot ∧
+    (splitNode ctx fuel n us).1.rad = n.rad ∧ (splitNode ctx fuel n us).1.ranges = n.ranges ∧
+    (splitNode ctx fuel n us).1.elems.Perm n.elems ∧ (splitNode ctx fuel n us).1.degPos = true := by
+  obtain ⟨h1, h2, h3, h4, h5, h6⟩ := splitNode_spec ctx hctx.dist hctx.params hctx.pick fuel n us hleaf hdata hdeg
+  refine ⟨h1, h2, h3, h4, ?_, h6⟩
+  rw [Node.elems_eq, h2, Node.elems_eq n]
+  exact List.Perm.cons _ h5
+
+/-- **`Node::add` preserves `GnatInv`** — unconditionally: for every tree satisfying the invariant with
+positive degrees and every new copy, after the model's `Node::add` (descent to the first closest pivot,
+`updateRange` of every sibling, `updateRadius`, leaf push, and — when `doSplit` — `split` of the
+overflowing leaf) the invariant holds again, degrees stay positive, the root pivot is unchanged and the
+tree stores exactly the old copies plus the new one.  (`doSplit` is only ever `true` when `removed_` is
+empty; no metric law is needed beyond what `split` uses.) -/
+theorem add_preserves_inv [LinearOrder D] [OfNat D 0] {U : Type} (ctx : Ctx α D U) (hctx : CtxOK ctx)
+    (removed : List Nat) (doSplit : Bool) (hds : doSplit = true → removed = []) (x : Elem α) (t : Node α D)
+    (ht : t.inv ctx.dist removed = true) (hdp : t.degPos = true) (us : List U) :
+    (t.insert ctx doSplit x us).1.inv ctx.dist removed = true ∧ (t.insert ctx doSplit x us).1.degPos = true ∧
+    (t.insert ctx doSplit x us).1.pivot = t.pivot ∧ (t.insert ctx doSplit x us).1.elems.Perm (x :: t.elems) := by
+  have hS : doSplit = true → SplitSpec ctx removed := by
+    intro h
+    rw [hds h]
+    exact splitSpec_nil ctx hctx.dist hctx.params hctx.pick
+  obtain ⟨h1, _, _⟩ := Node.insert_spec ctx removed doSplit hS x t.count t (Nat.le_refl _) ht hdp us
+  obtain ⟨p1, p2, p3⟩ := Node.insert_perm ctx removed doSplit hS x t.count t (Nat.le_refl _) ht hdp us
+  refine ⟨h1, p3, p1, ?_⟩
+  rw [Node.elems_eq, p1, Node.elems_eq t]
+  exact (List.Perm.cons _ p2).trans (List.Perm.swap _ _ _)
+
+/-- **`rebuildDataStructure`**: whatever the tree looked like (e.g. with a pivot marked removed), the
+rebuilt structure satisfies the state invariant and `list()` is a permutation of the old `list()`. -/
+theorem rebuild_abs [LinearOrder D] [OfNat D 0] {U : Type} (ctx : Ctx α D U) (hctx : CtxOK ctx) (g : Gnat α D)
+    (us : List U) (hp : g.params = ctx.P) (hids : IdsOK g.nextId g.list) :
+    (g.rebuild ctx us).1.Inv ctx ∧ (g.rebuild ctx us).1.list.Perm g.list :=
+  ⟨(Gnat.rebuild_spec ctx hctx g us hp hids).1, (Gnat.rebuild_spec ctx hctx g us hp hids).2.1⟩
+
+section Metric
+variable [CommRing D] [LinearOrder D] [IsStrictOrderedRing D] [BEq α] [LawfulBEq α] {U : Type}
+
+/-- **`remove` preserves the state invariant** (pivot test and rebuild included) and does what the
+API says: it answers `true` iff the value is held, and then `list()` loses exactly one copy of it.
+Uses: `nearestK_exact` for the 1-nearest query that locates the element (identity of indiscernibles
+makes the nearest copy *the* value), `isPivot = false` ⟹ the copy found is a `data_` element, which
+with distinct ids is not a pivot (so marking keeps "no pivot is marked"), and `rebuild_abs` otherwise. -/
+theorem remove_preserves_inv (ctx : Ctx α D U) (hctx : CtxOK ctx) (hm : MetricOK ctx.dist)
+    {ord : Nat → Nat → List Nat} (hord : ∀ sz off, (ord sz off).Perm (List.range sz))
+    (g : Gnat α D) (x : α) (us : List U) (hg : g.Inv ctx) :
+    (g.remove ctx ord x us).1.1.Inv ctx ∧
+    ((g.remove ctx ord x us).1.1.list.map (fun e => e.val)).Perm ((g.list.map (fun e => e.val)).erase x) ∧
+    ((g.remove ctx ord x us).2 = true ↔ x ∈ g.list.map (fun e => e.val)) :=
+  Gnat.remove_spec ctx hctx hm hord g x us hg
+
+/-- **Refinement.**  For every finite sequence of `add` / `add(vector)` / `remove` / `clear`, every
+draw sequence (too few draws included) and every child order of the queries inside `remove`: the state
+invariant holds (`Node.inv` = `GnatInv`, positive degrees, distinct ids), `size()` is the number of
+held elements, and `list()` is a permutation of the abstract multiset. -/
+theorem gnat_size_list_abs (ctx : Ctx α D U) (hctx : CtxOK ctx) (hm : MetricOK ctx.dist)
+    {ord : Nat → Nat → List Nat} (hord : ∀ sz off, (ord sz off).Perm (List.range sz))
+    (g0 : Gnat α D) (hg0 : g0.Inv ctx) (h0 : g0.tree = none) (ops : List (Op α)) (us : List U) :
+    (gnatRun ctx ord ops g0 us).1.Inv ctx ∧ (gnatRun ctx ord ops g0 us).1.WF ctx.dist ∧
+    (gnatRun ctx ord ops g0 us).1.size = (specRun ops).length ∧
+    ((gnatRun ctx ord ops g0 us).1.list.map (fun e => e.val)).Perm (specRun ops) := by
+  have hl0 : (g0.list.map (fun e => e.val)).Perm [] := by simp [Gnat.list, h0]
+  obtain ⟨h1, h2⟩ := gnatRun_spec ctx hctx hm hord ops (g0, us) [] hg0 hl0
+  obtain ⟨w1, w2⟩ := Gnat.Inv.wf ctx _ h1
+  refine ⟨h1, w1, ?_, h2⟩
+  unfold gnatRun specRun
+  rw [w2, ← h2.length_eq, List.length_map]
+
+/-- **After any history every query equals brute force.**  Whatever sequence of operations built the
+structure, `nearestK` returns (as values) a k-nearest answer over the abstract multiset, `nearestR`
+exactly the held elements within the radius, both sorted — for every child order of the query — and
+the model's traversal never runs out of fuel. -/
+theorem gnat_history_queries_exact (ctx : Ctx α D U) (hctx : CtxOK ctx) (hm : MetricOK ctx.dist)
+    {ord ordq : Nat → Nat → List Nat} (hord : ∀ sz off, (ord sz off).Perm (List.range sz))
+    (hordq : ∀ sz off, (ordq sz off).Perm (List.range sz))
+    (g0 : Gnat α D) (hg0 : g0.Inv ctx) (h0 : g0.tree = none) (ops : List (Op α)) (us : List U)
+    (q : α) (k : Nat) (eps rad : D) :
+    let g := (gnatRun ctx ord ops g0 us).1
+    IsKNearest (fun v => ctx.dist q v) k (specRun ops) ((g.nearestK ctx.dist eps ordq q k).1.map (fun x => x.2.val)) ∧
+    IsRNearest (fun v => ctx.dist q v) rad (specRun ops) ((g.nearestR ctx.dist ordq q rad).1.map (fun x => x.2.val)) ∧
+    (g.nearestK ctx.dist eps ordq q k).2.2 = false ∧ (g.nearestR ctx.dist ordq q rad).2.2 = false := by
+  intro g
+  obtain ⟨_, hwf, _, habs⟩ := gnat_size_list_abs ctx hctx hm hord g0 hg0 h0 ops us
+  obtain ⟨k1, _, k3⟩ := nearestK_exact hm.metric hm.self g hwf q k eps hordq
+  obtain ⟨r1, _, r3⟩ := nearestR_exact hm.metric g hwf q rad hordq
+  refine ⟨?_, ?_, k3, r3⟩
+  · have := isKNearest_vals (fun v => ctx.dist q v) k g.list _ (specRun ops) k1 habs
+    rw [List.map_map] at this
+    exact this
+  · have := isRNearest_vals (fun v => ctx.dist q v) rad g.list _ (specRun ops) r1 habs
+    rw [List.map_map] at this
+    exact this
+
+end Metric
 
 end GnatOps
 
-/-! non-vacuity of the operation theorems on the sample tree -/
+/-! non-vacuity of the operation theorems: the driver's kind of instance (L1 metric on ℤ², the sample
+parameters) satisfies every hypothesis, and the theorems pin concrete histories down. -/
 
-def sampleCtx : Ctx (Int × Int) Int Nat :=
-  { P := ⟨3, 2, 3, 2, 3, false⟩, dist := l1, eps := 1, pick := fun u n => u % n }
-
-example : ((sampleTree.insert sampleCtx false ⟨7, (8, 8)⟩ []).1.inv l1 [6] = true) :=
-  (add_preserves_inv_partial sampleCtx [6] false (by intro h; cases h) ⟨7, (8, 8)⟩ sampleTree (by decide) []).1
+example : (sampleTree.insert sampleCtx false ⟨7, (8, 8)⟩ ([] : List Nat)).1.inv l1 [6] = true :=
+  (add_preserves_inv sampleCtx sampleCtx_ok.1 [6] false (by intro h; cases h) ⟨7, (8, 8)⟩ sampleTree
+    (by decide) (by decide) []).1
 example : (sampleTree.insert sampleCtx false ⟨7, (8, 8)⟩ ([] : List Nat)).1.elems.map (·.id) = [0, 1, 7, 2, 3, 4, 5, 6] := by
   decide
-example : sampleTree.inv l1 [3, 6] = true :=
-  remove_preserves_inv_partial l1 [6] 3 sampleTree (by decide) (by decide)
+/-- a history with a bulk add that splits (draw `5`), a removal of a pivot and one of an absent value. -/
+example (us : List Nat) :
+    ((gnatRun sampleCtx (childOrder true)
+        [.addv [(1, 2), (3, 4), (5, 6), (0, 0), (9, 9)], .remove (1, 2), .remove (7, 7), .add (3, 4)] sampleG0 us).1.list.map
+      (fun e => e.val)).Perm [(3, 4), (3, 4), (5, 6), (0, 0), (9, 9)] :=
+  (gnat_size_list_abs sampleCtx sampleCtx_ok.1 sampleCtx_ok.2 (childOrder_perm true) sampleG0
+    ⟨rfl, by simp [sampleG0], ⟨rfl, rfl⟩⟩ rfl _ us).2.2.2
+example : kcenters l1 1 [⟨0, (0, 0)⟩, ⟨1, (0, 0)⟩, ⟨2, (5, 5)⟩, ⟨3, (5, 5)⟩] 3 1 = [1, 2] := by decide
 
 end OmplModel.NN
